@@ -4,32 +4,114 @@ from fractions import Fraction
 from ..runner import Prop, Case
 from ..core import zlist
 from ..codec import Codec, INT_RANGES, f64_bits, bits_f64
-from ..layouts import lay1, zoo
+from ..layouts import lay1, zoo, contiguous
 from ..nd import prod
+from .c02 import pivot_tokens
 
 STRATS = ["sqrt", "rice", "sturges", "fd", "auto"]
 INT_ETS = ["i8", "u8", "i32", "i64", "u16", "usize"]
 UMAX = {"i8": 127, "u8": 255, "i32": 2 ** 31 - 1, "i64": 2 ** 63 - 1, "u16": 65535, "usize": 2 ** 64 - 1}
 
 
-def mk_strategy_case(name, et, data, lay):
+def mk_strategy_case(name, et, data, lay, mode=None):
+    """mode: pivot mode for the two quartile selections inside FreedmanDiaconis / Auto (None = drawn pivots)"""
     cd = Codec(et)
     toks = [cd.tok(v) for v in data]
     g = cd.tok(data[0] if data else 0)
     buf = lay.embed(toks, lambda k: g)
     line = "%s %s | %s | %d %s" % (name, et, lay.tokens(), len(buf), " ".join(buf))
+    if mode is not None:
+        line += " | " + pivot_tokens(mode)
     return Case("strategy", " ".join(line.split()), name=name, et=et, data=list(data),
-                data_m=[int(t) for t in toks], layout=lay.describe())
+                data_m=[int(t) for t in toks], layout=lay.describe(), mode=mode)
 
 
-def mk_gridb_case(name, et, rows, lay):
+def mk_gridb_case(name, et, rows, lay, mode=None):
     cd = Codec(et)
     flat = [v for r in rows for v in r]
     toks = [cd.tok(v) for v in flat]
     g = cd.tok(flat[0] if flat else 0)
     buf = lay.embed(toks, lambda k: g)
     line = "%s %s | %s | %d %s" % (name, et, lay.tokens(), len(buf), " ".join(buf))
-    return Case("gridb", " ".join(line.split()), name=name, et=et, rows=[list(r) for r in rows], layout=lay.describe())
+    if mode is not None:
+        line += " | " + pivot_tokens(mode)
+    ncols = len(rows[0]) if rows else 0
+    return Case("gridb", " ".join(line.split()), name=name, et=et, rows=[list(r) for r in rows], layout=lay.describe(),
+                rows_t=[[toks[r * ncols + c] for c in range(ncols)] for r in range(len(rows))], mode=mode)
+
+
+def random_mode(rng, n):
+    """pivot modes for the selections hidden inside a strategy: drawn, the three fixed policies, hashed policies and
+    scripts biased towards the ends of the (sub)array"""
+    k = rng.below(8)
+    if k == 0:
+        return ("R",)
+    if k <= 3:
+        return ("P", k - 1)
+    if k <= 5:
+        return ("P", rng.range(3, 1000))
+    return ("S", [rng.choice([0, n - 1 if n else 0, rng.below(max(n, 1)), (3 * n) // 4, n // 4]) for _ in range(rng.range(1, 8))])
+
+
+def parse_gridb(case):
+    """OK shape | total | nproj | (nb | edges)* | C cshape | counts"""
+    secs = [s.split() for s in case.raw.split("|")]
+    head = secs[0]
+    if head[0] == "OK":
+        shape = [int(x) for x in head[2:]]
+        total = int(secs[1][0])
+        nproj = int(secs[2][0])
+        projs = []
+        for k in range(nproj):
+            nb = int(secs[3 + 2 * k][0])
+            edges_t = secs[4 + 2 * k][1:]
+            projs.append((nb, edges_t))
+        rest = secs[3 + 2 * nproj:]
+        cshape, counts = None, None
+        if len(rest) >= 2 and rest[0] and rest[0][0] == "C":
+            cshape = [int(x) for x in rest[0][2:]]
+            counts = [int(x) for x in rest[1][1:]]
+        case.obs = dict(tag="OK", shape=shape, total=total, projs=projs, cshape=cshape, counts=counts)
+    elif head[0] == "ERR":
+        case.obs = dict(tag="ERR", kind=head[1])
+    else:
+        case.obs = dict(tag=head[0])
+
+
+def gridb_recount(case):
+    """the counts of the histogram over the built grid, recounted from the grid's own bin ranges: cell (i_0..i_d-1)
+    must hold the number of rows whose j-th coordinate lies in [edge_j[i_j], edge_j[i_j + 1]) for every j"""
+    o = case.obs
+    et = case.et
+    out = []
+    if o.get("counts") is None:
+        return out
+    edges = [[num(et, t) for t in e] for _, e in o["projs"]]
+    shape = [max(len(e) - 1, 0) for e in edges]
+    if o["cshape"] != shape:
+        return ["counts-shape: counts array has shape %s, the grid has %s bins per axis" % (o["cshape"], shape)]
+    size = prod(shape)
+    want = [0] * size
+    for r in case.rows_t:
+        idx = []
+        for c, t in enumerate(r):
+            x = num(et, t)
+            e = edges[c]
+            hit = [i for i in range(len(e) - 1) if e[i] <= x < e[i + 1]]
+            if len(hit) != 1:
+                idx = None
+                break
+            idx.append(hit[0])
+        if idx is not None:
+            k = 0
+            for sdim, i in zip(shape, idx):
+                k = k * sdim + i
+            want[k] += 1
+    if want != o["counts"]:
+        bad = [k for k in range(size) if want[k] != o["counts"][k]][:3]
+        out.append("counts: cells %s hold %s, but %s observations lie in those bins (recount from the grid's own ranges)"
+                   % (bad, [o["counts"][k] for k in bad], [want[k] for k in bad]))
+    return out
 
 
 def rround(x):
@@ -110,7 +192,7 @@ class C12(Prop):
                     n = rng.range(1, maxlen if rng.chance(1, 6) else 40)
                     data = self._data(et, n, rng)
                     lay = lay1(n, rng.choice([1, 1, 2, -1]), rng.below(2), 0)
-                    yield mk_strategy_case(name, et, data, lay)
+                    yield mk_strategy_case(name, et, data, lay, random_mode(rng, n) if name in ("fd", "auto") else None)
         # degenerate inputs
         for name in STRATS:
             for et in ("i32", "n64", "u8"):
@@ -144,7 +226,30 @@ class C12(Prop):
                 cols = [self._data(et, nrows, rng) for _ in range(ncols)]
                 rows = [[cols[c][r] for c in range(ncols)] for r in range(nrows)]
                 lay = rng.choice(zoo([nrows, ncols], rng, 2))
-                yield mk_gridb_case(name, et, rows, lay)
+                yield mk_gridb_case(name, et, rows, lay, random_mode(rng, nrows) if name in ("fd", "auto") else None)
+        # the quartile selections inside FreedmanDiaconis / Auto work on a scratch copy; whatever pivots they draw, the
+        # grid must start at the minimum of the DATA: short data sets under every fixed policy and many scripts
+        for rep in range(30 if tier == "quick" else 1500):
+            for name in ("fd", "auto"):
+                et = rng.choice(["i64", "n64", "i32"])
+                n = rng.range(5, 16)
+                data = [rng.range(0, 60) for _ in range(n)]
+                data[rng.below(n)] = rng.range(300, 2000)
+                if et == "n64":
+                    data = [v / 4.0 for v in data]
+                for mode in (("P", 0), ("P", 1), ("P", 2), ("S", [rng.below(n) for _ in range(6)]),
+                             ("S", [n - 1 - rng.below(max(n // 3, 1)) for _ in range(6)])):
+                    yield mk_strategy_case(name, et, data, lay1(n), mode)
+        # data of large magnitude relative to its spread: consecutive placed edges min + i * w round to the same value
+        for rep in range(6 if tier == "quick" else 200):
+            for name in STRATS:
+                nrows = rng.range(4, 30)
+                ncols = rng.range(1, 2)
+                base = 2.0 ** rng.choice([52, 53, 54, 60])
+                step = base * 2.0 ** -52 * rng.choice([1, 2])
+                cols = [[base + step * rng.choice([0, 0, 1, 2, 2, 3]) for _ in range(nrows)] for _ in range(ncols)]
+                rows = [[cols[c][r] for c in range(ncols)] for r in range(nrows)]
+                yield mk_gridb_case(name, "n64", rows, contiguous([nrows, ncols]), random_mode(rng, nrows))
 
     def _data(self, et, n, rng):
         if et == "n64":
@@ -198,21 +303,11 @@ class C12(Prop):
                 case.obs = dict(tag="ERR", kind=head[1])
             else:
                 case.obs = dict(tag=head[0])
+            for sec in secs[1:]:
+                if sec and sec[0] == "M":
+                    case.obs["libm"] = (int(sec[1]), int(sec[2]))
         else:
-            if head[0] == "OK":
-                shape = [int(x) for x in head[2:]]
-                total = int(secs[1][0])
-                nproj = int(secs[2][0])
-                projs = []
-                for k in range(nproj):
-                    nb = int(secs[3 + 2 * k][0])
-                    edges_t = secs[4 + 2 * k][1:]
-                    projs.append((nb, edges_t))
-                case.obs = dict(tag="OK", shape=shape, total=total, projs=projs)
-            elif head[0] == "ERR":
-                case.obs = dict(tag="ERR", kind=head[1])
-            else:
-                case.obs = dict(tag=head[0])
+            parse_gridb(case)
 
     def _check_bins(self, et, data_vals, w, nb, nbuilt, edges):
         """data_vals, edges: Fractions; w: Fraction"""
@@ -294,7 +389,9 @@ class C12(Prop):
             edges = [num(et, t) for t in edges_t]
             if edges and (edges[0] != min(vals) or not edges[-1] > max(vals)):
                 out.append("cover: column %d bins [%s, %s) do not start at min / end above max" % (c, float(edges[0]), float(edges[-1])))
-        return out
+            if any(edges[i] >= edges[i + 1] for i in range(len(edges) - 1)):
+                out.append("sorted: column %d edges are not strictly increasing" % c)
+        return out + gridb_recount(case)
 
     def known_class(self, case, reasons):
         if case.routine == "strategy" and case.et != "n64" and case.data:
